@@ -43,6 +43,37 @@ def search(mismatches, seed):
     return out
 
 
+def minimize(failure):
+    """greedy removal of operations from the recorded history while a failure with the same key remains"""
+    import collections
+    ops = (failure.replay or {}).get("ops")
+    if failure.kind != "oracle" or not ops or len(ops) < 6:
+        return failure
+
+    def fails_with(cand):
+        fl, tg = [], collections.Counter()
+        try:
+            hybrid.replay_ops(cand, fl, tg)
+        except Exception:
+            return None
+        hit = [f for f in fl if f.key == failure.key]
+        return hit[0] if hit else None
+
+    best, best_f = list(ops), None
+    changed = True
+    while changed:
+        changed = False
+        for i in range(len(best) - 1, 3, -1):
+            cand = best[:i] + best[i + 1:]
+            f2 = fails_with(cand)
+            if f2 is not None:
+                best, best_f, changed = cand, f2, True
+    if best_f is None or len(best) >= len(ops):
+        return failure
+    rep = dict(failure.replay, ops=best, minimized_from=len(ops))
+    return common.Failure(failure.kind, failure.key, best_f.what + f" [history shrunk from {len(ops)} to {len(best)} lines]", rep)
+
+
 def replay(rep):
     """re-executes the recorded history on the real library and on the model"""
     import collections
